@@ -180,6 +180,75 @@ func c14Specs() []*edt.Spec {
 	}
 }
 
+// h2cSuiteSpecs: every exported suite obtains its uniform bytes from expand_message_xmd / _xof
+// applied to the caller's DST and message unchanged (so the RFC 9380 §5.3 handling — abort
+// conditions, over-long DST replacement — is the one decided above, not a private copy) and maps
+// them with the construction its name states: _NU = encode_to_curve (one 48-byte field element),
+// _RO = hash_to_curve (two), R255MAP = ristretto255 one-way map of 64 bytes; or it delegates to
+// another exported suite of the same kind with only the hash fixed.
+func h2cSuiteSpecs() []*edt.Spec {
+	type suite struct{ name, expand, mapper, hash string }
+	suites := []suite{
+		{"Edwards25519_XMD_SHA512_ELL2_RO", "", "h2c.Edwards25519_XMD_ELL2_RO", "7"},
+		{"Edwards25519_XMD_SHA512_ELL2_NU", "", "h2c.Edwards25519_XMD_ELL2_NU", "7"},
+		{"Edwards25519_XMD_ELL2_RO", "h2c.ExpandMessageXMD", "h2c.hashToCurve", "$hFunc"},
+		{"Edwards25519_XMD_ELL2_NU", "h2c.ExpandMessageXMD", "h2c.encodeToCurve", "$hFunc"},
+		{"Edwards25519_XOF_ELL2_RO", "h2c.ExpandMessageXOF", "h2c.hashToCurve", "$xofFunc"},
+		{"Edwards25519_XOF_ELL2_NU", "h2c.ExpandMessageXOF", "h2c.encodeToCurve", "$xofFunc"},
+		{"Ristretto255_XMD_R255MAP_RO", "h2c.ExpandMessageXMD", "RistrettoPoint.SetUniformBytes", "$hFunc"},
+		{"Ristretto255_XOF_R255MAP_RO", "h2c.ExpandMessageXOF", "RistrettoPoint.SetUniformBytes", "$xofFunc"},
+	}
+	opaque := []string{"h2c.ExpandMessageXMD", "h2c.ExpandMessageXOF", "h2c.hashToCurve", "h2c.encodeToCurve", "RistrettoPoint.SetUniformBytes"}
+	for _, su := range suites {
+		opaque = append(opaque, "h2c."+su.name)
+	}
+	var out []*edt.Spec
+	for _, su := range suites {
+		su := su
+		var op []string
+		for _, o := range opaque {
+			if o != "h2c."+su.name {
+				op = append(op, o)
+			}
+		}
+		sp := &edt.Spec{Pkg: "primitives/h2c", Func: su.name, Opaque: op, MinPaths: 1}
+		if su.expand == "" {
+			// delegation: the generic suite with SHA-512 (crypto.SHA512 = 7), arguments handed on unchanged
+			call := su.mapper + "(" + su.hash + ", $domainSeparator, $message)"
+			sp.Classify = func(p *edt.Path, out string, e *edt.Env) string {
+				if out == "res0("+call+") ; err("+call+")" {
+					return "delegates"
+				}
+				return ""
+			}
+			sp.Formula = map[string]func(e *edt.Env) edt.Tri{"delegates": func(e *edt.Env) edt.Tri { return edt.T }}
+		} else {
+			exp := su.expand + "(" + su.hash + ", $domainSeparator, $message)"
+			sp.MinPaths = 2
+			sp.Vars = map[string]string{"isnil(err(" + exp + "))": "expandOK"}
+			okOut := su.mapper + "(" + exp + ") ; nil"
+			if su.mapper == "RistrettoPoint.SetUniformBytes" {
+				okOut = "&new(" + su.mapper + "(" + exp + ")) ; err(" + su.mapper + "(" + exp + "))"
+			}
+			sp.Classify = func(p *edt.Path, out string, e *edt.Env) string {
+				switch {
+				case out == okOut:
+					return "mapped"
+				case strings.HasPrefix(out, "nil ; err(fmt.Errorf(") && strings.Contains(out, "err("+exp+")"):
+					return "expand-error"
+				}
+				return ""
+			}
+			sp.Formula = map[string]func(e *edt.Env) edt.Tri{
+				"mapped":       func(e *edt.Env) edt.Tri { return e.V("expandOK") },
+				"expand-error": func(e *edt.Env) edt.Tri { return edt.Not(e.V("expandOK")) },
+			}
+		}
+		out = append(out, sp)
+	}
+	return out
+}
+
 func init() {
 	Registry["C14"] = func(c *Ctx) {
 		run := c.Run
@@ -195,7 +264,7 @@ func init() {
 			run.SetConfig(id)
 			if id == c.Configs()[0] {
 				cfg := &edt.Config{P: p, Mod: modFor(p)}
-				for _, s := range c14Specs() {
+				for _, s := range append(c14Specs(), h2cSuiteSpecs()...) {
 					r := edt.Check(dt, cfg, s)
 					run.Sample(map[string]any{"function": s.Func, "paths": r.Paths, "feasible": r.Feasible, "classes": r.ClassCount})
 				}
@@ -211,6 +280,7 @@ func init() {
 		}
 		arithmeticFoundations(c)
 		groupFoundations(c, true)
+		ownershipRules(c) // inputs (messages, tags) are not modified or kept
 		readFullRule(c)
 		{
 			id := c.Configs()[0]
